@@ -133,6 +133,10 @@ def mk_chunks(S, ch):
 
 
 def check(w, spec, payload_mode, ch) -> list[str]:
+    if ch[0] == "containers":
+        from mc.props import C14
+
+        return C14.protocol_container_errors()
     S = b"".join(SEG[x] for x in w)
     if ch[0] == "noisecalls":
         chunks = [bytes.fromhex(ch[2])] * ch[1] + [SEG[x] for x in w]
@@ -238,6 +242,19 @@ def _work_runs(task) -> core.Part:
     return p
 
 
+def _work_containers(task) -> core.Part:
+    """Candidate readers handed over as a tuple, and one list object handed to two protocol instances in a row (the
+    'lambda: Protocol(queue, readers)' factory pattern after a reconnect): the clean traffic of each connection must be
+    forwarded, and the caller's list must be left alone."""
+    from mc.props import C14
+
+    p = core.Part()
+    for m in C14.protocol_container_errors():
+        p.viol("forwarding", f"forwarding:container:{m[:80]}", m, {"segments": [], "readers": [], "payload_mode": True, "chunking": ["containers"]}, size=1)
+    p.add("executions", 12)
+    return p
+
+
 def _work_manycalls(task) -> core.Part:
     """n data_received() calls of noise (n up to 3000) in which no candidate finds anything, then a clean stream in the
     format of the first / second candidate: counters on calls (not on bytes) show here."""
@@ -282,6 +299,7 @@ def main(run: core.Run) -> int:
     kmax = 40 if q else 130
     run.log(f"run-length sweep: k = 1..{kmax}")
     run.merge(par.pmap(_work_runs, [(list(range(1, kmax + 1))[i::16],) for i in range(16)], seed=run.seed))
+    run.merge(par.pmap(_work_containers, [0], seed=run.seed))
     run.merge(par.pmap(_work_manycalls, [(n,) for n in (1, 9, 25, 26, 100, 130, 257, 999, 1000, 1001, 1100, 2049, 3000)], seed=run.seed))
     tot = run.total
     tot.sample({"segments": ["Fbad", "R", "Fp"], "readers": ["H", "P"], "protocol": "payload", "chunking": "cut@20", "expected_queue": "payload of R only (P1 reader selected in the chunk where R completes)"})
